@@ -40,6 +40,12 @@ checks = [
      "deterministic simulation: seeded tag/reload histories vs set model and tag-free reference engine","DESIGN.md section 4 (C07)"),
  chk("C08","Seeded deterministic simulation: at arbitrary points of a history the engine is serialized to a simulated (fault-free) disk and reloaded by crash-restart or into a live engine holding other rules and tags; afterwards every network, CSP, cosmetic and class/id query under subsequent tag operations is compared with an engine built from the rule list the bytes came from.",
      "deterministic simulation: crash-restart/reload at arbitrary history points vs engine built from the list","DESIGN.md section 4 (C08)"),
+ chk("C09","Seeded deterministic simulation with the hash-seed source (getrandom) as a simulator-owned seam: every generated rule list is built 8 times on fresh threads under different hash keys, allocator policies and order-preserving chunkings, and for ~5% of lists again in a child process (thorough: with the kernel's real getrandom); all buffers must be byte-identical, and three reload variants plus a tags-enabled pair must reproduce the buffer exactly.",
+     "deterministic simulation: simulator-owned hash seeds / threads / processes, byte-for-byte comparison of serialized buffers and reload fixpoint","DESIGN.md section 4 (C09)",
+     "Trusted base: the getrandom interposition (evidence reports how many distinct iteration orders it induced), the generator. Stability across versions/platforms is not claimed."),
+ chk("C10","Fault enumeration on a simulated disk between serialize_raw and deserialize: for every sampled buffer every prefix (torn write), every single-bit flip, every stale-tail cut against an older image, the lost write and 20 marker substitutions at every msgpack value offset are enumerated completely; zeroed/duplicated ranges, multi-byte corruption and free-form strings under every header variant are sampled. Each case is loaded into a non-empty engine under catch_unwind and allocator accounting: Err must leave bytes, tags and answers unchanged; Ok must be followed by total queries, a tag switch and re-serialization; allocation is bounded; worker-process death is a violation.",
+     "simulated-disk fault enumeration (torn/short/stale/bit-flip/marker) with allocator accounting and process isolation","DESIGN.md section 4 (C10)",
+     "Trusted base: the fault generator and msgpack walker, the allocator accounting, catch_unwind. Buffers are sampled (16 quick / 400 thorough); per buffer the listed single-fault kinds are complete.", level="fault_enumeration"),
 ]
 m = {
  "version": 1,
@@ -56,7 +62,7 @@ m = {
     "kind_free_text":"seeded deterministic simulator in Rust: one run = fresh thread with simulated clock (hook), seeded allocator for the rule size class, interposed getrandom for hash seeds, in-memory disk; 16 worker processes; minimiser and replay"}
  ],
  "checks": checks,
- "notes": "fix: commits in /repo: 3abe90d e53bf23 ea52f20 3a7bef6 700abd6 (see known_findings.json). Known findings are replayed from /verif/witnesses and reported as KNOWN-FINDING lines.",
+ "notes": "fix: commits in /repo: 3abe90d e53bf23 ea52f20 3a7bef6 700abd6 f98e7f0 42030f9 fc19ce0 d3ab54c (see known_findings.json). Known findings are replayed from /verif/witnesses and reported as KNOWN-FINDING lines.",
  "not_applicable": [{"property_id":k,"reason":v} for k,v in NA.items()],
 }
 json.dump(m, open('/verif/MANIFEST.json','w'), indent=1)
